@@ -346,10 +346,28 @@ impl Prop for C12 {
                 workers: 4,
                 build: Build::Normal,
             },
+            Leg {
+                name: "huge-dense",
+                kind: LegKind::Random {
+                    cases: tier.pick(24, 200),
+                },
+                workers: 16,
+                build: Build::Normal,
+            },
         ]
     }
 
-    fn strategy(_leg: &str, tier: Tier) -> BoxedStrategy<Case> {
+    fn strategy(leg: &str, tier: Tier) -> BoxedStrategy<Case> {
+        if leg == "huge-dense" {
+            return (gen::dense_near_miss(), 1..=16_usize)
+                .prop_map(|((d, kind), cpus)| Case {
+                    h: G::Contiguous(Dg { order: d.order, arcs: d.arcs.iter().copied().step_by(3).collect() }),
+                    d: G::Contiguous(d),
+                    cpus,
+                    kind,
+                })
+                .boxed();
+        }
         let max: usize = tier.pick(40, 90);
         (
             0..KINDS.len(),
@@ -463,6 +481,12 @@ impl Prop for C12 {
         let cpus = Cpus::new();
         let (res, seen) = cpus.with(c.cpus, sys::rot(), || -> Verdict {
             match (&c.d, &c.h) {
+                (G::Contiguous(d), G::Contiguous(h)) if c.kind.starts_with("dense:") => {
+                    // dense digraphs of 127..400 vertices: the two representations with
+                    // threaded / word-packed predicates
+                    check_preds(&AdjacencyList::build(d), &AdjacencyList::build(h), &md, &mh, "AdjacencyList")?;
+                    check_preds(&AdjacencyMatrix::build(d), &AdjacencyMatrix::build(h), &md, &mh, "AdjacencyMatrix")
+                }
                 (G::Contiguous(d), G::Contiguous(h)) => {
                     check_preds(&AdjacencyList::build(d), &AdjacencyList::build(h), &md, &mh, "AdjacencyList")?;
                     check_preds(&AdjacencyMap::build(d), &AdjacencyMap::build(h), &md, &mh, "AdjacencyMap")?;
